@@ -159,8 +159,27 @@ def wrap_threads(rng, bodies, parent, join_prob=0.8):
             tasks[p].insert(pos, op("spawn", v=c))
     for c in range(1, n):
         if rng.random() < join_prob:
-            tasks[parent[c]].append(op("join", v=c))
+            t = tasks[parent[c]]
+            sp = next(i for i, o in enumerate(t) if o["k"] == "spawn" and o["v"] == c)
+            # mostly at the end, sometimes in the middle of the parent's body (operations after a join);
+            # never inside a critical section opened before it (keep guard slots balanced around it)
+            if rng.random() < 0.35:
+                cands = [i for i in range(sp + 1, len(t) + 1) if balanced(t[:i])]
+                pos = rng.choice(cands) if cands else len(t)
+            else:
+                pos = len(t)
+            t.insert(pos, op("join", v=c))
     return tasks
+
+
+def balanced(code):
+    held = 0
+    for o in code:
+        if o["k"] in ("lock", "read", "write"):
+            held += 1
+        elif o["k"] == "unlock":
+            held -= 1
+    return held == 0
 
 
 FAMILIES = {
@@ -172,6 +191,8 @@ FAMILIES = {
     "rwlock": (["read", "write", "try_read", "try_write", "unlock", "ginc", "gget", "yield"], dict(nrw=1, natom=1)),
     "condvar": (["lock", "cv_wait", "notify_one", "notify_all", "unlock", "store", "load"], dict(nmutex=1, ncv=1, natom=1)),
     "park": (["park", "unpark", "yield", "store", "load"], dict(natom=1)),
+    # park tokens against tasks blocked in other primitives
+    "park_mix": (["park", "unpark", "unpark", "barrier_wait", "lock", "unlock", "load"], dict(natom=1, nmutex=1, nbar=1)),
     "barrier": (["barrier_wait", "barrier_wait", "fadd", "load"], dict(nbar=1, natom=1)),
     "barrier_reuse": (["barrier_wait", "barrier_wait", "barrier_wait", "fadd", "load"], dict(nbar=1, natom=1)),
     "once": (["call_once", "call_once", "is_completed", "load", "store"], dict(nonce=1, natom=1)),
